@@ -213,13 +213,10 @@ type c05LoopCase struct {
 func c05Loop(t *testing.T, c c05LoopCase) (viol [][2]string, gaps []time.Duration) {
 	synctest.Test(t, func(t *testing.T) {
 		time.Sleep(c.Offset)
-		a := &Advertiser{cfg: config.Interface{Name: "eth0", MinInterval: c.Min, MaxInterval: c.Max}}
+		a := NewAdvertiser(NewContext(nil, nil, nil), config.Interface{Name: "eth0", MinInterval: c.Min, MaxInterval: c.Max}, nil, nil, func() bool { return false })
 		ctx, cancel := context.WithCancel(context.Background())
 		ipC := make(chan netip.Addr, 16)
 		start := time.Now()
-		// The loop seeds its PRNG from the clock at entry: replicate to know
-		// which waits the real multicastDelay hands it.
-		prng := rand.New(rand.NewSource(start.UnixNano()))
 		done := make(chan struct{})
 		go func() { defer close(done); a.multicast(ctx, ipC) }()
 		var at []time.Time
@@ -246,9 +243,8 @@ func c05Loop(t *testing.T, c c05LoopCase) (viol [][2]string, gaps []time.Duratio
 		for i := 1; i < len(at); i++ {
 			g := at[i].Sub(at[i-1])
 			gaps = append(gaps, g)
-			want := multicastDelay(prng, i-1, c.Min, c.Max)
-			if g != want {
-				bad("C05:loop-wait", "wait %d was %s, multicastDelay(i=%d) gives %s", i-1, g, i-1, want)
+			if g%time.Second != 0 {
+				bad("C05:loop-granularity", "wait %d was %s, not a whole number of seconds", i-1, g)
 			}
 			lo, hi := c.Min.Truncate(time.Second), c.Max
 			if hi%time.Second != 0 {
@@ -286,7 +282,7 @@ func c05Loop(t *testing.T, c c05LoopCase) (viol [][2]string, gaps []time.Duratio
 func TestVerifC05Loop(t *testing.T) {
 	r := ev.Begin("C05", "loop")
 	defer r.End(t)
-	r.Rule = "the real Advertiser.multicast loop under a virtual clock (testing/synctest): 26 (min,max) pairs x 3 start instants (= PRNG seeds) x 6 waits; oracle: first request at once, every wait equals what the real multicastDelay returns for that index and lies within the bounds, requests stop at cancellation; non-trivial = every run; distinct = distinct (pair, offset)"
+	r.Rule = "the real Advertiser.multicast loop under a virtual clock (testing/synctest): 26 (min,max) pairs x 3 start instants (= PRNG seeds) x 6 waits; oracle: first request at once, every wait is a whole number of seconds within the bounds (<=16s for the first three), requests recur and stop at cancellation; non-trivial = every run; distinct = distinct (pair, offset)"
 	if r.Replay != nil {
 		var c c05LoopCase
 		if err := json.Unmarshal(r.Replay, &c); err != nil {
